@@ -457,6 +457,12 @@ func (l *ledGen) processOne() {
 	}
 	b := l.queue[0]
 	l.queue = l.queue[1:]
+	// a notification can be lost to a transient failure (the follower only logs it); the next one
+	// then takes the reorg path and connects several blocks inside ONE database transaction
+	if len(l.queue) > 0 && l.r.Intn(5) == 0 {
+		l.g.Stats["notify-dropped"]++
+		return
+	}
 	l.op("notify", "notify %s", b)
 }
 
